@@ -385,6 +385,7 @@ let suite_nvm file =
   let distinct = Hashtbl.create 10000 in
   let insts : (string, inst) Hashtbl.t = Hashtbl.create 100 in
   let nc_failed : (string, unit) Hashtbl.t = Hashtbl.create 100 in
+  let wrong_count = ref 0 and wrong_smaller = ref 0 and wrong_larger = ref 0 in
   iter_lines file (fun line ->
       match split line with
       | "G" :: r -> set_geometry r
@@ -405,6 +406,17 @@ let suite_nvm file =
             | Panic _ -> "panic (model)"
           in
           if model <> res_s then report "CORR" (Printf.sprintf "NvmAlloc::create %s model=[%s]" ctx model);
+          (* ORACLE (no model): a recover is accepted iff the header holds the magic and exactly z - 1 *)
+          if recover && (hmn =! nVM_MAGIC) && not (hfn =! (zn -! ni 1)) then begin
+            incr wrong_count;
+            if hfn <! (zn -! ni 1) then incr wrong_smaller else incr wrong_larger;
+            if (match res with "ok" :: _ -> true | _ -> false) then begin
+              Hashtbl.replace nc_failed id ();
+              report "ORACLE"
+                (Printf.sprintf "NvmAlloc::create recovered an instance of a different size (header records %s frames, the zone has z-1=%s): %s" hf
+                   (hx (zn -! ni 1)) ctx)
+            end
+          end;
           (* ORACLE: layout statements on the implementation's numbers *)
           (match res with
            | [ "ok"; managed; off; la; ll ] ->
@@ -418,7 +430,7 @@ let suite_nvm file =
                chk ((basen +! (mn *! f)) <=! lan) "lower metadata starts inside the managed frames";
                chk ((lan +! lln) <=! header) "lower metadata reaches into the header page";
                chk ((lan %! ni 64) =! n0) "lower metadata not cache-line aligned";
-               if recover then chk ((hmn =! nVM_MAGIC) && (hfn =! (zn -! ni 1))) "recovered although the header does not hold the magic and z-1";
+               if recover then chk (hmn =! nVM_MAGIC) "recovered although the header does not hold the magic";
                Hashtbl.replace insts id { base = basen; z = zn; managed = mn; offset = offn; lower_addr = lan }
            | [ "err"; "init" ] ->
                incr refused;
@@ -469,8 +481,8 @@ let suite_nvm file =
       | "HFAIL" :: r -> report "ORACLE" ("harness: " ^ String.concat " " r)
       | [] -> ()
       | _ -> failwith ("nvm: bad line " ^ line));
-  Printf.printf "SUMMARY suite=nvm evaluations=%d distinct=%d created=%d recovered=%d refused=%d returned_frames=%d histories=%d corr=%d oracle=%d\n" !evals
-    (Hashtbl.length distinct) !creates !recovers_ok !refused !gets !hist (count "CORR") (count "ORACLE")
+  Printf.printf "SUMMARY suite=nvm evaluations=%d distinct=%d created=%d recovered=%d refused=%d recover_magic_ok_wrong_count=%d recorded_smaller=%d recorded_larger=%d returned_frames=%d histories=%d corr=%d oracle=%d\n" !evals
+    (Hashtbl.length distinct) !creates !recovers_ok !refused !wrong_count !wrong_smaller !wrong_larger !gets !hist (count "CORR") (count "ORACLE")
 
 let () =
   match Array.to_list Sys.argv with
